@@ -10,6 +10,7 @@ use crate::nitrogql_ast::variable::VariablesDefinition;
 /// spec 3.5 / "Reserved Names": names beginning with two underscores are reserved for introspection
 pub open spec fn reserved(s: Seq<char>) -> bool { s.len() >= 2 && s[0] == '_' && s[1] == '_' }
 
+pub open spec fn opt_ref<'a, T>(o: Option<T>) -> Option<&'a T> { match o { Some(x) => Some(&x), None => None } }
 //@ fragment spec_args.rs
 
 /// spec 5.7 Directives, for the i-th directive of a list applied at location `loc`:
@@ -22,7 +23,7 @@ pub open spec fn dir_valid_at<'src, S>(sch: &Schema<S, Pos>, vars: Option<&Varia
         let def = schema_directives(sch)[d.name.name@].inner;
         &&& exists|k: int| 0 <= k < def.locations@.len() && tv(#[trigger] def.locations@[k].inner) == loc
         &&& (def.repeatable is None ==> forall|j: int| 0 <= j < i ==> (#[trigger] ds[j]).name.name@ != d.name.name@)
-        &&& args_valid(sch, vars, d.arguments, def.arguments@)
+        &&& args_valid(sch, vars, opt_ref(d.arguments), def.arguments@)
     }
 }
 pub open spec fn dirs_valid_upto<'src, S>(sch: &Schema<S, Pos>, vars: Option<&VariablesDefinition<'src>>, ds: Seq<Directive<'src>>, loc: Seq<char>, n: int) -> bool {
